@@ -60,6 +60,24 @@ def sites(fn):
             out.append((idx, "attr-rename", lambda m: setattr(m, "attr", m.attr + "_")))
         if isinstance(n, ast.Subscript) and isinstance(n.slice, ast.Constant) and isinstance(n.slice.value, int):
             out.append((idx, "index", lambda m: setattr(m, "slice", ast.Constant(value=m.slice.value + 1))))
+    # structural: a try / with / loop-else / decorator / default dissolved
+    for idx, n in enumerate(nodes):
+        for field in ("body", "orelse", "finalbody"):
+            lst = getattr(n, field, None)
+            if isinstance(lst, list) and lst and isinstance(lst[0], ast.stmt):
+                for k, st in enumerate(lst):
+                    if isinstance(st, ast.Try):
+                        out.append((idx, f"untry-{field}-{k}", ("untry", field, k)))
+                        if st.handlers:
+                            out.append((idx, f"drop-handlers-{field}-{k}", ("unhandle", field, k)))
+                    if isinstance(st, ast.With):
+                        out.append((idx, f"unwith-{field}-{k}", ("unwith", field, k)))
+                    if isinstance(st, (ast.For, ast.While)) and st.orelse:
+                        out.append((idx, f"drop-loop-else-{field}-{k}", ("unelse", field, k)))
+    if isinstance(fn, ast.FunctionDef) and fn.decorator_list:
+        out.append((0, "drop-decorator", lambda m: m.decorator_list.pop()))
+    if isinstance(fn, ast.FunctionDef) and fn.args.defaults:
+        out.append((0, "drop-default", lambda m: m.args.defaults.pop(0) if len(m.args.defaults) and len(m.args.args) > len(m.args.defaults) else m.args.defaults.__setitem__(0, ast.Constant(value=12345))))
     # statement deletions / duplications / swaps
     for idx, n in enumerate(nodes):
         for field in ("body", "orelse", "finalbody"):
@@ -119,10 +137,24 @@ def work(args):
             fn2 = list(all_funcs(t2))[fi][1]
             nodes = list(ast.walk(fn2))
             target = nodes[idx]
-            descr = ast.unparse(target)[:100] if not isinstance(mut, tuple) else mut[0] + ": " + ast.unparse(getattr(target, mut[1])[mut[2]])[:100]
+            descr = (ast.unparse(target)[:100] if not isinstance(mut, tuple) else mut[0] + ": " + ast.unparse(getattr(target, mut[1])[mut[2]])[:100]).replace("\n", " ")
             try:
                 if callable(mut):
                     mut(target)
+                elif isinstance(mut, tuple) and mut[0] in ("untry", "unhandle", "unwith", "unelse"):
+                    lst = getattr(target, mut[1])
+                    st_ = lst[mut[2]]
+                    if mut[0] == "untry":
+                        lst[mut[2]:mut[2] + 1] = list(st_.body) + list(st_.orelse) + list(st_.finalbody)
+                    elif mut[0] == "unhandle":
+                        if st_.finalbody:
+                            st_.handlers = []
+                        else:
+                            lst[mut[2]:mut[2] + 1] = list(st_.body) + list(st_.orelse)
+                    elif mut[0] == "unwith":
+                        lst[mut[2]:mut[2] + 1] = list(st_.body)
+                    else:
+                        st_.orelse = []
                 elif isinstance(mut, tuple):
                     lst = getattr(target, mut[1])
                     if mut[0] == "del":
